@@ -488,7 +488,8 @@ def run(ctx):
         rule="a case = one command log (KV, hash, list, set, zset, bitmap, HLL, JSON writes incl. TTL commands; timestamps straddling "
              "second boundaries by 1 ns; a share of proposable-but-failing batchable commands) plus its variant set; every variant is "
              "a run of the real node state machine; each is compared with a partner differing in one dimension (batching / replay flag / "
-             "engine / clock position / rerun / restore-at-cut / process). Non-trivial = log of >= 2 commands with >= 2 variants; distinct "
+             "engine / clock position / rerun / restore-at-cut / process / local expiry sweep / cluster-syncer live-vs-replay and grouping); plus the "
+             "exhaustive batchable-pair sweep and the edge-argument sweep of the batchable commands (three groupings each). Non-trivial = log of >= 2 commands with >= 2 variants; distinct "
              "by hash of log+variants. traces_validated = (log, variant) runs whose batch-operator call sequence and reply kinds the "
              "extracted model predicted.",
         histogram=dict(commands=dict(top[:60]), comparisons_by_dimension=stats["by_dim"], logs=stats["logs"],
